@@ -22,6 +22,10 @@ CHECKS = {
          "Random histories of metric arrivals (valid/invalid, expired/live by construction, bursts beyond the window), peer removals and failure checks over the whole store or a chosen peerset are applied to the real Store and Checker; after every step LatestValid (and Monitor.LatestMetrics under nil/erroring/subset/superset peerset functions) must equal the model, and after every check the drained alerts must be exactly one per newly expired checked (peer,name), none for live ones, none repeated, with the stale metric gone one check later.",
          "Expiries are one hour from now so no verdict depends on wall-clock expiry during a case. With >=6 samples the accrual detector decides when to alert: only safety is asserted there. Alerts for peers whose latest metric is invalid, and for a failure whose preceding renewal was wiped by RemovePeer before any check saw it, are not demanded.",
          "DESIGN.md §4 C09"),
+ "C03": ("exploration", "runtime differential monitor: real Cluster + real allocators + real pubsubmon against an allocation predicate computed from generated inputs",
+         "A long-lived real Cluster (real allocate.go, both shipped allocators, real pubsubmon with peerset filter, model consensus holding the current pin) allocates through Cluster.Pin and the BlockAllocate RPC for generated peersets, per-peer metric states (absent/valid/expired/invalid/non-numeric, ties forced), current allocations, priority lists and factor pairs; each result is judged by a predicate derived from the inputs only (membership, health, min/max, priority-then-strategy order with free ties, refusal leaves the pinset unchanged).",
+         "Metric expiry is +-1h so no metric changes class during a call. The exclusion list is reached only through the failure/removal path, covered by C10 with the same predicate. Filling up to max and the identity of tie winners are not demanded.",
+         "DESIGN.md §4 C03"),
 }
 
 ALL = ["C%02d" % i for i in range(1, 19)]
